@@ -246,6 +246,9 @@ func (c *Case) Nontrivial(canon string) {
 	c.X.mu.Unlock()
 }
 
+// Evals counts n further evaluations made inside this case (e.g. connections of a batch).
+func (c *Case) Evals(n int) { atomic.AddInt64(&c.X.evals, int64(n)) }
+
 func (c *Case) Dist(k string) {
 	c.X.mu.Lock()
 	c.X.dist[k]++
